@@ -114,6 +114,14 @@ CLAIMS = {
          "20 000 and 200 000 (thorough: 2 000 000) entries from file and HTTP, DER and PEM.",
          "Coq proof of a constant allocation bound + heap-growth measurement in a child process", "DESIGN.md §3 C17",
          "the Go heap, garbage collector, LevelDB memtables and the HTTP client are runtime: the model shows only that the reader asks for bounded memory and retains nothing; the end-to-end bound is measured, not proved."),
+ "C13": ("Coq: a lockset checker for a lock/access skeleton language with a machine-checked soundness theorem (C13_checker_sound: for any "
+         "number of threads and every interleaving under reader/writer lock semantics an accepted program has no data race, never re-acquires "
+         "a held lock, takes locks in one global order, and ends holding nothing), applied to the skeleton that tools/lockskel regenerates from "
+         "crlrepository.go, crlrevocationchecker.go, ocsprevocationchecker.go and multischemescrlloader.go on every run "
+         "(C13_skeleton_accepted, C13_no_race_no_relock); plus a race-detector build of the harness stressing handshakes x refreshes x "
+         "config updates x cleanup on both backends and fetch modes and OCSP lookups around cache expiry, with watchdogs and verdict checks.",
+         "Coq-verified lockset checker on a source-generated skeleton + race-detector stress", "DESIGN.md §3 C13",
+         "the Go memory model and scheduler are not modelled; the skeleton is syntactic (fields and locks resolved by name, one abstract instance per receiver variable); freedom from deadlock is proved as no-relock + a global lock order (the classical progress argument is not mechanised); serialisability of verdicts is checked by the stress run (verdicts outside the set some sequential order allows are failures), not proved."),
  "C03": ("Coq theorems C03_table/C03_enabled/C03_iff/C03_effects over a model whose mode table, enable predicates and "
          "VerifyClientCertificate stage list are regenerated from the Go source on every run; plus an exhaustive 1536-cell "
          "table of real handshakes evaluated against the model (vm_compute) and against the property's own wording.",
@@ -147,7 +155,7 @@ m = {
    "guard": "verif",
    "enable": "go build -tags verif (the harness module replaces the dependency with /repo)",
    "baseline_off_cmd": "cd /repo && go build ./... && go test -vet=off -count=1 -timeout 25m ./...",
-   "source_commits": [],
+   "source_commits": ["9db60bf", "9f9cd1b", "d004980"],
    "add_only": True,
  },
  "engines": [
